@@ -449,7 +449,7 @@ def token_spans(text):
 def corrupt(text, rng):
     """Returns (kind, corrupted text) or None. Every edit makes the text malformed under the documented grammar."""
     spans = token_spans(text)
-    kinds = ["del(", "dup(", "del)", "del[", "del]", "dup[", "dup]", "dbl,", "stray=", "stray)", "delname", "del=arg", "delquote"]
+    kinds = ["del(", "dup(", "del)", "del[", "del]", "dup[", "dup]", "dbl,", "stray=", "stray)", "delname", "del=arg", "delquote", "mixlist", "mixlist"]
     rng.shuffle(kinds)
     for kind in kinds:
         if kind in ("del(", "del)", "del[", "del]"):
@@ -489,6 +489,35 @@ def corrupt(text, rng):
             if c:
                 s = rng.choice(c)
                 return kind, text[:s[1]] + " " + text[s[2]:]
+        if kind == "mixlist":
+            # a key/value pair inside a plain list: '[1, 2]' -> '[1, k: 2]' (a list holds values, a tuple holds pairs)
+            c = []
+            for k in range(1, len(spans) - 1):
+                if spans[k][0] == "," and spans[k - 1][0] in "[," and spans[k + 1][0] in "],":
+                    # the comma sits between two elements of a bracketed sequence without nested structure right here
+                    depth_ok = ":" not in text[spans[k - 1][2]:spans[k + 1][1]]
+                    inner = text[spans[k][2]:spans[k + 1][1]].strip()
+                    if depth_ok and inner and "[" not in inner and "(" not in inner and "=" not in inner:
+                        c.append(spans[k])
+            # only inside lists: the nearest unclosed bracket before the comma must be '[' and its content must not be a tuple
+            good = []
+            for sp in c:
+                stack = []
+                for t in spans:
+                    if t[1] >= sp[1]:
+                        break
+                    if t[0] in "[(":
+                        stack.append(t)
+                    elif t[0] in "])" and stack:
+                        stack.pop()
+                if stack and stack[-1][0] == "[":
+                    close = [t for t in spans if t[1] > sp[1] and t[0] == "]"]
+                    seg = text[stack[-1][2]:close[0][1]] if close else ""
+                    if ":" not in seg:
+                        good.append(sp)
+            if good:
+                s_ = rng.choice(good)
+                return kind, text[:s_[2]] + " k:" + text[s_[2]:]
         if kind == "delquote":
             if text.count('"') == 2 and "'" not in text and "\\" not in text and "#" not in text:
                 i = text.rindex('"')
